@@ -236,3 +236,140 @@ def lean_meta(mods):
     if missing or bad:
         return False, f'lean/Meta.lean: theorems not reported {missing}; non-standard axioms {bad}'
     return True, 'lean/Meta.lean checked by Lean 4 (no sorry): ' + '; '.join(l for l in out.splitlines() if 'axioms' in l)
+
+
+def parser_declares(mod, expected):
+    """A-EXT assumes that the object argparse returns carries, for every field the contracts read, a value of the field's declared
+    type (int / IEEE double / bool / str). This obligation ties that assumption to the REAL `init_parser`: it must return the parser
+    it created, and the set of options it declares -- destination name (first long option, dashes to underscores, or `dest=`),
+    `type=` resp. `action='store_true'` -- must be exactly `expected` ({dest: 'int' | 'float' | 'str' | 'bool'}); every
+    add_argument call must be a plain call on that parser with literal option strings (anything else is outside the reading)."""
+    def check(mods):
+        f = _fn(mods, mod, 'init_parser')
+        if f is None:
+            return None, f'{mod}.init_parser not found'
+        pname = None
+        found = {}
+        for n in ast.walk(f):
+            if isinstance(n, ast.Assign) and isinstance(n.value, ast.Call) and ast.unparse(n.value.func) == 'argparse.ArgumentParser':
+                if pname is not None or len(n.targets) != 1 or not isinstance(n.targets[0], ast.Name):
+                    return False, 'more than one ArgumentParser / not bound to a plain name'
+                pname = n.targets[0].id
+        if pname is None:
+            return False, 'no argparse.ArgumentParser(...) bound in init_parser'
+        rets = [n for n in ast.walk(f) if isinstance(n, ast.Return)]
+        if len(rets) != 1 or not isinstance(rets[0].value, ast.Name) or rets[0].value.id != pname:
+            return False, 'init_parser does not return the parser it created'
+        for n in ast.walk(f):
+            if isinstance(n, ast.Call) and isinstance(n.func, ast.Attribute) and isinstance(n.func.value, ast.Name) and n.func.value.id == pname:
+                if n.func.attr != 'add_argument':
+                    return False, f'parser method {n.func.attr} is outside the reading'
+                opts = [a.value for a in n.args if isinstance(a, ast.Constant) and isinstance(a.value, str)]
+                if len(opts) != len(n.args) or not opts:
+                    return False, f'add_argument at line {n.lineno}: option strings are not literals'
+                kw = {k.arg: k.value for k in n.keywords}
+                if None in kw:
+                    return False, f'add_argument at line {n.lineno}: **kwargs'
+                longs = [o for o in opts if o.startswith('--')]
+                dest = (kw['dest'].value if 'dest' in kw and isinstance(kw['dest'], ast.Constant) else
+                        (longs[0][2:] if longs else opts[0].lstrip('-')).replace('-', '_'))
+                if set(kw) - {'type', 'required', 'default', 'help', 'action', 'dest'}:
+                    return False, f'add_argument for {dest}: keyword(s) {sorted(set(kw) - {"type", "required", "default", "help", "action", "dest"})} outside the reading (nargs, choices, const change what is returned)'
+                if 'action' in kw:
+                    if not (isinstance(kw['action'], ast.Constant) and kw['action'].value == 'store_true') or 'type' in kw:
+                        return False, f'add_argument for {dest}: action other than store_true'
+                    if 'default' in kw and not (isinstance(kw['default'], ast.Constant) and kw['default'].value is False):
+                        return False, f'add_argument for {dest}: store_true with a default other than False'
+                    ty = 'bool'
+                else:
+                    ty = ast.unparse(kw['type']) if 'type' in kw else 'str'
+                    if 'default' in kw and isinstance(kw['default'], ast.Constant) and kw['default'].value is not None \
+                            and type(kw['default'].value).__name__ != ty:
+                        return False, f'add_argument for {dest}: default {kw["default"].value!r} is not of the declared type {ty}'
+                if dest in found:
+                    return False, f'option {dest} declared twice'
+                found[dest] = ty
+        ok = found == expected
+        return ok, (f'init_parser declares {found}' + ('' if ok else f'; the contracts assume {expected}'))
+    return check
+
+
+def writer_tail_idiom(mod, fns, file_param='my_file'):
+    """write_robot_A/B/C are verified up to `game = {...}` (the dictionary's values are what the cut conditions constrain). What
+    follows is TEXT, outside the solver theories; this obligation pins its shape so that the bounded round-trip check is about
+    pretty-printing only: after the (single, top-level, last) assignment `game = {<4 literal keys>: <names>}` every remaining
+    statement is `<file>.write(E)` with E a string literal or `str(game).replace(c1, c2)...` whose arguments are string constants
+    (literals, module constants bound once to string literals, or `+` of those); `game` is not touched in between."""
+    def check(mods):
+        import ast as _a
+        consts = {}
+        tree = mods[mod].tree
+
+        def _lit(e):        # a string literal, an earlier module string constant, `+` of those, or literal * int
+            if isinstance(e, _a.Constant) and isinstance(e.value, str):
+                return True
+            if isinstance(e, _a.Name):
+                return e.id in consts
+            if isinstance(e, _a.BinOp) and isinstance(e.op, _a.Add):
+                return _lit(e.left) and _lit(e.right)
+            if isinstance(e, _a.BinOp) and isinstance(e.op, _a.Mult):
+                return (_lit(e.left) and isinstance(e.right, _a.Constant) and isinstance(e.right.value, int)) or \
+                       (_lit(e.right) and isinstance(e.left, _a.Constant) and isinstance(e.left.value, int))
+            return False
+        for n in tree.body:
+            if isinstance(n, _a.Assign) and len(n.targets) == 1 and isinstance(n.targets[0], _a.Name) and _lit(n.value):
+                consts[n.targets[0].id] = consts.get(n.targets[0].id, 0) + 1
+        stores = {}
+        for n in _a.walk(tree):
+            if isinstance(n, _a.Name) and isinstance(n.ctx, _a.Store):
+                stores[n.id] = stores.get(n.id, 0) + 1
+
+        def strconst(e):
+            if isinstance(e, _a.Constant) and isinstance(e.value, str):
+                return True
+            if isinstance(e, _a.Name):
+                return consts.get(e.id) == 1 and stores.get(e.id) == 1
+            if isinstance(e, _a.BinOp) and isinstance(e.op, _a.Add):
+                return strconst(e.left) and strconst(e.right)
+            return False
+
+        def text_of_game(e, gname):
+            if isinstance(e, _a.Call) and isinstance(e.func, _a.Attribute) and e.func.attr == 'replace' and len(e.args) == 2 and not e.keywords \
+                    and all(strconst(a) for a in e.args):
+                return text_of_game(e.func.value, gname)
+            return isinstance(e, _a.Call) and isinstance(e.func, _a.Name) and e.func.id == 'str' and len(e.args) == 1 and not e.keywords \
+                and isinstance(e.args[0], _a.Name) and e.args[0].id == gname
+        if any(isinstance(n, (_a.FunctionDef, _a.Assign)) and 'str' in [getattr(n, 'name', None)] + [t.id for t in getattr(n, 'targets', []) if isinstance(t, _a.Name)] for n in _a.walk(tree)):
+            return False, '`str` is rebound in the module'
+        for q in fns:
+            f = _fn(mods, mod, q)
+            if f is None:
+                return None, f'{mod}.{q} not found'
+            idx = [i for i, st in enumerate(f.body) if isinstance(st, _a.Assign) and isinstance(st.value, _a.Dict) and len(st.targets) == 1 and isinstance(st.targets[0], _a.Name)]
+            if len(idx) != 1:
+                return False, f'{q}: expected exactly one top-level `<name> = {{...}}`'
+            st = f.body[idx[0]]
+            g = st.targets[0].id
+            keys = [k.value if isinstance(k, _a.Constant) else None for k in st.value.keys]
+            if keys != ['rewards', 'players', 'transition_list', 'final_states'] or not all(isinstance(v, _a.Name) for v in st.value.values):
+                return False, f'{q}: the dictionary is not {{rewards, players, transition_list, final_states}} of plain names'
+            if sum(1 for n in _a.walk(f) if isinstance(n, _a.Name) and n.id == g and isinstance(n.ctx, _a.Store)) != 1:
+                return False, f'{q}: `{g}` is bound more than once'
+            tail = f.body[idx[0] + 1:]
+            n_text = 0
+            for t in tail:
+                ok = isinstance(t, _a.Expr) and isinstance(t.value, _a.Call) and isinstance(t.value.func, _a.Attribute) and t.value.func.attr == 'write' \
+                    and isinstance(t.value.func.value, _a.Name) and t.value.func.value.id == file_param and len(t.value.args) == 1 and not t.value.keywords
+                if not ok:
+                    return False, f'{q}: statement at line {t.lineno} after the dictionary is not `{file_param}.write(...)`'
+                a = t.value.args[0]
+                if strconst(a):
+                    continue
+                if text_of_game(a, g):
+                    n_text += 1
+                    continue
+                return False, f'{q}: line {t.lineno} writes something other than a string constant or str({g}).replace(<const>, <const>)...'
+            if n_text != 1:
+                return False, f'{q}: str({g}) is written {n_text} times'
+        return True, f'{", ".join(fns)}: after `game = {{...}}` only constant text and one `str(game).replace(const, const)...` are written'
+    return check
